@@ -13,7 +13,7 @@ ASSUMPTIONS = [
 
 REAL_VS_STUB = {
     "real": ["every libdispatch translation unit of the Linux build (queue.c, source.c, event/*.c, semaphore.c, once.c, apply.c, data.c, io.c, time.c, object.c, init.c, allocator.c, block.cpp, shims/lock.c, shims/yield.c)", "BlocksRuntime", "kernel epoll/eventfd/pipes/socketpairs/regular files", "glibc or ASan malloc"],
-    "simulated": ["thread scheduling (baton)", "futex", "POSIX semaphores", "CLOCK_MONOTONIC/BOOTTIME/REALTIME", "timerfd expiry (eventfd stand-in)", "signalfd / signal delivery (eventfd stand-in, sim_signal_raise, misfire fault)", "sleep/usleep/sched_yield", "gettid", "/proc/<tid>/stat", "CPU count", "faults on read/write/pread/pwrite/calloc/posix_memalign/pthread_create"],
+    "simulated": ["thread scheduling (baton)", "futex", "POSIX semaphores", "CLOCK_MONOTONIC/BOOTTIME/REALTIME", "timerfd expiry (eventfd stand-in)", "signalfd / signal delivery (eventfd stand-in, sim_signal_raise, misfire fault)", "pthread_exit / sigsuspend of the main thread (dispatch_main)", "sleep/usleep/sched_yield", "gettid", "/proc/<tid>/stat", "CPU count", "faults on read/write/pread/pwrite/calloc/posix_memalign/pthread_create"],
     "not_compiled_on_linux": ["event_kevent.c", "event_windows.c", "mach.c", "voucher/firehose", "kevent workqueue / workloop-kevent paths"],
 }
 
